@@ -162,12 +162,12 @@ func runRange(scn *Scenario, job *Job, out io.Writer) int {
 			sum.Counters[k] += v
 		}
 		for h := range c.States {
-			if len(states) < 300000 {
+			if len(states) < 100000 {
 				states[h] = struct{}{}
 			}
 		}
 		for h := range c.Nontriv {
-			if len(nontriv) < 300000 {
+			if len(nontriv) < 100000 {
 				nontriv[h] = struct{}{}
 			}
 		}
